@@ -210,6 +210,20 @@ func init() {
 						}
 					}
 				}
+				// (b5) host hooks that change nothing change nothing: parsers built with an identity pre-parse or post-parse host function
+				if want, ok, decided := expectSpecialHost(d, h); decided && !strings.ContainsAny(h, "/\\?#@:[] \t\n\r") && (i < total/8 || i >= total) && i%2 == 1 {
+					for k, hp := range hookParsers {
+						in := "http://" + h + "/"
+						io := implParse(hp, nil, in)
+						name := []string{"an identity post-parse host function", "an identity pre-parse host function", "both identity host functions"}[k]
+						cs5 := Case{Kind: "parse", Cfg: name, Input: in, Family: "ipv4-api:host-hooks", Index: i}
+						if ok != (io.Kind == "U") {
+							c.Report(Finding{Class: "violation", What: fmt.Sprintf("under a parser with %s, host %q of a special URL: implementation %s, the standard %s", name, h, io.String(), map[bool]string{true: "accepts it as " + want, false: "rejects it"}[ok]), Case: cs5})
+						} else if ok && io.Fields[fHostname] != want {
+							c.Report(Finding{Class: "violation", What: fmt.Sprintf("under a parser with %s, host %q of a special URL serializes as %q, the standard's result is %q", name, h, io.Fields[fHostname], want), Case: cs5})
+						}
+					}
+				}
 				// (b3) every special scheme is one: schemes added by WithSpecialSchemes (whatever the length of their names), and
 				// the gopher scheme of the Semantic profile; (b4) the host setters are a route to a special URL's host too
 				if want, ok, decided := expectSpecialHost(d, h); decided && !strings.ContainsAny(h, "/\\?#@:[] \t\n\r") && (i < total/8 || i >= total) {
@@ -449,6 +463,12 @@ func init() {
 		rule: "serializer: all 256 zero patterns x 8 piece values + random addresses against the extracted Spec serializer, with Spec parse(serialize(a)) = a and re-parsing through Parse; parser: all strings up to length 5 (quick) / 7 (thorough) over 01fFg:. between brackets, all bracket arrangements up to length 6 over []:1, generated and mutated IPv6 texts, through the host-parser hook (special and opaque) and through Parse in a special and a non-special scheme, against the extracted Spec parser",
 	}
 }
+
+// parsers whose host hooks are the identity
+var hookParsers = func() []url.Parser {
+	id := func(u *url.Url, host string) string { return host }
+	return []url.Parser{url.NewParser(url.WithPostParseHostFunc(id)), url.NewParser(url.WithPreParseHostFunc(id)), url.NewParser(url.WithPreParseHostFunc(id), url.WithPostParseHostFunc(id))}
+}()
 
 func descSpec(s string) string {
 	if s == "fail" {
